@@ -100,6 +100,7 @@ class Interp:
         self.by_op = collections.Counter()
         self.distinct = set()
         self.monitor_errors = []
+        self.tainted = False
 
     # ------------------------------------------------------------------ the call primitive
     def call(self, op, form, real_thunk, shadow_thunk, operands=(), flags=()):
@@ -167,6 +168,10 @@ class Interp:
                     raise Abort('expected-exc')
                 self.violation(ev, 'wrong-exception:' + name, 'expected ' + '|'.join(exp))
                 raise Abort('violation')
+            if self.tainted:
+                ev.verdict = 'tainted'
+                self.stats['tainted'] += 1
+                raise Abort('tainted')
             self.violation(ev, 'unexpected-exception:' + name, str(real)[:200])
             raise Abort('violation')
         # a value came back
@@ -195,11 +200,20 @@ class Interp:
                 self.violation(ev, 'missing-exception:' + '|'.join(exp), 'returned %r' % text)
                 return real, S.Raw(text)
             exp = also
+        if self.tainted:
+            # an operand already deviates from its shadow (reported at the event where it happened): what is built on
+            # top of it is not compared semantically any more, but MUST-raise rules are still judged against the shadow
+            ev.verdict = 'tainted'
+            self.stats['tainted'] += 1
+            return real, exp
         v = J.judge(text, exp, self.rnd, export_text=real.get_pattern(), nprobes=self.nprobes)
         ev.ref = v.ref
         if v.kind == 'viol':
             ev.text = v.text
             self.violation(ev, v.symptom, v.detail)
+            if v.symptom.startswith(('semantic', 'groups')):
+                self.tainted = True
+                return real, exp
             return real, S.Raw(text)
         ev.verdict = v.kind
         self.stats[v.kind] += 1
@@ -229,6 +243,7 @@ class Interp:
     def run_program(self, prog, form=None):
         """returns (status, events, real_text or None)."""
         self.events = []
+        self.tainted = False
         node = prog
         if 'prog' in prog:
             node = prog['prog']
